@@ -260,6 +260,12 @@ class Interp:
             if len(flds) != len(v):
                 raise OutsideSubset('tuple arity for record %s' % sortname)
             return U.mk(sortname, *[self.coerce(x, s) for x, (f, s) in zip(v, flds)])
+        if sortname in U.records and isinstance(v, dict):
+            # a dict with constant keys used as a record: the key set must be exactly the field list
+            flds = U.decl_spec[sortname][1]
+            if set(v) != {f for f, _ in flds}:
+                raise OutsideSubset('dict keys %s are not the fields of %s' % (sorted(v), sortname))
+            return U.mk(sortname, *[self.coerce(v[f], s_) for f, s_ in flds])
         if sortname in U.lists and isinstance(v, list):
             info = U.lists[sortname]
             t = U.nil(sortname)
@@ -377,7 +383,9 @@ class Interp:
         if m is None:
             m = {}
             for key, c in self.cset.fns.items():
-                m[c.qualname.split('.')[-1]] = c
+                short_ = c.qualname.split('.')[-1]
+                if '.' not in c.qualname or short_ not in m or '.' in m[short_].qualname:
+                    m[short_] = c            # a bare name is the module-level function, not a method of the same name
                 m[c.qualname] = c
             self.cset._callee_map = m
         return m
@@ -621,6 +629,8 @@ class Interp:
         if isinstance(base, ModuleVal):
             if attr not in base.attrs:
                 raise OutsideSubset('%s.%s' % (base.name, attr))
+            if is_z3(base.attrs[attr]):
+                return base.attrs[attr]          # a module-level object (sys.stdout)
             return FuncVal('hook', base.name + '.' + attr, base.attrs[attr])
         if isinstance(base, FuncVal) and attr in ('__module__', '__qualname__', '__name__'):
             return self.fresh('Str', 'name')
@@ -754,20 +764,25 @@ class Interp:
             raise OutsideSubset('dict comprehension shape')
         g = node.generators[0]
         it = self.ev(g.iter)
-        if not isinstance(it, (tuple, list)) or not isinstance(g.target, ast.Name):
+        if not isinstance(it, (tuple, list)):
             raise OutsideSubset('dict comprehension over a non-constant sequence')
+        tnames = [n.id for n in ast.walk(g.target) if isinstance(n, ast.Name)]
         out = {}
-        saved = self.env.get(g.target.id, KeyError)
+        saved = {n: self.env.get(n, KeyError) for n in tnames}
+        alias = set(getattr(self, 'param_alias', ()))
         for x in it:
-            self.env[g.target.id] = x
+            self.assign(g.target, x)
             k = self.ev(node.key)
             if not isinstance(k, str):
                 raise OutsideSubset('dict comprehension with a non-constant key')
             out[k] = self.ev_pure(node.value)       # value expressions are merged with ite, not forked
-        if saved is KeyError:
-            self.env.pop(g.target.id, None)
-        else:
-            self.env[g.target.id] = saved
+        for n, v in saved.items():                   # comprehension variables have their own scope
+            if v is KeyError:
+                self.env.pop(n, None)
+            else:
+                self.env[n] = v
+        if hasattr(self, 'param_alias'):
+            self.param_alias = alias
         return out
 
     def ev_Dict(self, node):
@@ -811,7 +826,13 @@ class Interp:
             return self.isinstance_(node)
         fn = self.ev(node.func)
         if any(isinstance(a, ast.Starred) for a in node.args):
-            raise OutsideSubset('star arguments')
+            # f(a, b, *ARGS, **KWARGS) with opaque argument packs (forwarding shims): the family decides what such a call means
+            h = getattr(self.U, 'packed_call_hook', None)
+            stars = [a for a in node.args if isinstance(a, ast.Starred)]
+            dstar = [k for k in node.keywords if k.arg is None]
+            if h is None or len(stars) != 1 or node.args[-1] is not stars[0] or len(dstar) != 1 or len(node.keywords) != 1:
+                raise OutsideSubset('star arguments')
+            return h(self, fn, [self.ev(a) for a in node.args[:-1]], self.ev(stars[0].value), self.ev(dstar[0].value), node)
         args = [self.ev(a) for a in node.args]
         kwargs = {}
         for k in node.keywords:
@@ -821,6 +842,10 @@ class Interp:
                     kwargs.update(d)
                 elif isinstance(d, KwMap):
                     kwargs['**'] = d
+                elif is_z3(d) and self.sort_of(d) in getattr(self.U, 'dict_records', ()):
+                    # a dict with a fixed key set, represented as a record
+                    sn_ = self.sort_of(d)
+                    kwargs.update({f: z3.simplify(self.U.rget(sn_, f, d)) for f in self.U.records[sn_]})
                 else:
                     raise OutsideSubset('**argument that is not a dict with constant keys')
             else:
@@ -1085,6 +1110,12 @@ class Interp:
     def call_contract(self, c, args, kwargs, node, callee_term=None):
         """Modular call: assert pre, havoc modifies, assume post."""
         vals = self.bind_params(c, args, kwargs)
+        cglobals = getattr(c, 'globals_', None) or {}
+        for g in cglobals:
+            # module-level state the callee reads / writes: the caller must carry it too (declared in its own contract)
+            if g not in self.env:
+                raise OutsideSubset('callee %s uses the global %s, which the caller does not declare' % (c.qualname, g))
+            vals[g] = self.env[g]
         saved_env, saved_old = self.env, self.old_env
         cenv = dict(vals)
         # ghost universals of the callee are fresh here only for requires (they may not occur there)
@@ -1107,7 +1138,7 @@ class Interp:
             post_env = dict(vals)
             rebinds = {}
             for m in c.modifies:
-                nv = self.fresh(c.params[m], m + "'")
+                nv = self.fresh(c.params[m] if m in c.params else cglobals[m], m + "'")
                 post_env[m] = nv
                 rebinds[m] = nv
             result = None
@@ -1190,6 +1221,9 @@ class Interp:
                 self.assume(f)
         # write back modified containers to the caller's variables
         for m, nv in rebinds.items():
+            if m in cglobals:
+                self.env[m] = nv
+                continue
             idx = list(c.params).index(m)
             argnode = None
             if node is None:
@@ -1213,6 +1247,9 @@ class Interp:
         return result
 
     def writeback(self, c, m, nv, node):
+        if m in (getattr(c, 'globals_', None) or {}):
+            self.env[m] = nv
+            return
         if node is None:
             return
         idx = list(c.params).index(m)
@@ -1514,7 +1551,11 @@ class Interp:
             self.exec_block(s.orelse)
 
     def st_Global(self, s):
-        raise OutsideSubset('global statement')
+        decl = (getattr(self.fn_contract, 'globals_', None) or {}) if self.fn_contract is not None else {}
+        for n in s.names:
+            if n not in decl:
+                raise OutsideSubset('global %s is not declared in the contract' % n)
+        # declared globals live in the environment from the entry on: nothing to do
 
     def st_FunctionDef(self, s):
         self.env[s.name] = Closure(s, self.env)
